@@ -389,6 +389,17 @@ impl Db {
     /// Run a rendered query one CTE at a time: each CTE is materialised as a temp table named like
     /// the CTE. Returns the rows of every stage, in order, and the final result.
     pub fn staged(&self, sql: &str, hook: &mut dyn FnMut(&Db, &str, &[String]) -> Result<(), String>) -> Result<(Vec<(String, Rows)>, Rows), String> {
+        self.staged_with(sql, &mut |_, _| {}, hook)
+    }
+
+    /// `before(db, stage)` runs before a stage is computed (e.g. to switch the random source),
+    /// `after(db, stage, columns)` right after its temp table exists (e.g. to pin its content).
+    pub fn staged_with(
+        &self,
+        sql: &str,
+        before: &mut dyn FnMut(&Db, &str),
+        after: &mut dyn FnMut(&Db, &str, &[String]) -> Result<(), String>,
+    ) -> Result<(Vec<(String, Rows)>, Rows), String> {
         let dialect = sqlparser::dialect::PostgreSqlDialect {};
         let stmts = sqlparser::parser::Parser::parse_sql(&dialect, sql).map_err(|e| format!("reparse: {}", e))?;
         let query = match stmts.into_iter().next() {
@@ -410,25 +421,52 @@ impl Db {
                         format!(" ({})", cols.iter().map(|c| quote_ident(c)).collect::<Vec<_>>().join(", "))
                     };
                     let q = quote_ident(&name);
+                    before(self, &name);
                     self.exec(&format!("DROP TABLE IF EXISTS temp.{q};"))?;
                     self.exec(&format!(
                         "CREATE TEMP TABLE {q} AS WITH {q}{collist} AS ({body}) SELECT * FROM {q};"
                     ))
                     .map_err(|e| format!("stage {}: {} in {}", name, e, body))?;
                     created.push(name.clone());
-                    hook(self, &name, &cols)?;
+                    after(self, &name, &cols)?;
                     let rows = self.query(&format!("SELECT * FROM temp.{q}"))?;
                     stages.push((name, rows));
                 }
             }
             let mut last = query.clone();
             last.with = None;
+            before(self, "");
             self.query(&fix_query(&last).to_string())
         })();
         for name in created.iter() {
             let _ = self.exec(&format!("DROP TABLE IF EXISTS temp.{};", quote_ident(name)));
         }
         result.map(|r| (stages, r))
+    }
+
+    /// Replace the content of a materialised stage by the given rows (pinning)
+    pub fn overwrite_stage(&self, name: &str, rows: &Rows) -> Result<(), String> {
+        let q = quote_ident(name);
+        self.exec(&format!("DELETE FROM temp.{q};"))?;
+        if rows.columns.is_empty() {
+            return Ok(());
+        }
+        let placeholders = (0..rows.columns.len()).map(|_| "?").collect::<Vec<_>>().join(", ");
+        let mut stmt = self.conn.prepare(&format!("INSERT INTO temp.{q} VALUES ({placeholders})")).map_err(|e| e.to_string())?;
+        for r in rows.rows.iter() {
+            let vals: Vec<SqlValue> = r
+                .iter()
+                .map(|v| match v {
+                    V::Null => SqlValue::Null,
+                    V::Int(i) => SqlValue::Integer(*i),
+                    V::Real(f) => SqlValue::Real(*f),
+                    V::Text(s) => SqlValue::Text(s.clone()),
+                    V::Blob(b) => SqlValue::Blob(b.clone()),
+                })
+                .collect();
+            stmt.execute(rusqlite::params_from_iter(vals.iter())).map_err(|e| e.to_string())?;
+        }
+        Ok(())
     }
 
     /// Execute the whole (shimmed) query at once
